@@ -2,7 +2,9 @@
    Statements only; proofs live in Proofs/TimeCtlProofs.v. The constants TimeSafetyMargin,
    PredictedMoves and TimeInf come from Gen/TimeConsts.v, regenerated from uci/uci.go on every run. *)
 From Coq Require Import ZArith.
+From Coq Require Import List.
 From Chess3 Require Import Base.Word Gen.TimeConsts Model.TimeCtl Proofs.TimeCtlProofs.
+From Chess3 Require Import Model.TimeArm Proofs.TimeArmProofs.
 Open Scope Z_scope.
 
 (* clock_ok t c :=  1 <= remaining <= 9*10^12 ms  /\  0 <= increment <= 2^60 ms
@@ -37,8 +39,69 @@ Theorem C14_timer_armed : forall t c, 0 < remaining t c \/ 0 < mtime t -> timed_
 Proof. exact timer_armed. Qed.
 Print Assumptions C14_timer_armed.
 
+(* ---- the arming of the deadline (Model/TimeArm.v: handleGo and its interrupt goroutine; tied to
+   the real uci.Driver by stream c14arm under virtual time) ----
+   case_hard c      := hard_limit of the go line's clock state for the side to move of the ROOT
+   clock_started c  := not a ponder search, or the ponderhit comes before the GUI's stop
+   clock_start c    := instant of the ponderhit for a ponder search, else the start of the search
+   abort_delay c    := instant the stop channel closes - clock_start c
+   same_mover_view c c' := same colour, same remaining time / increment / move time of the MOVER,
+                       same Ponder option and token, same ponderhit and stop instants; the opponent's
+                       fields, the depth of the search in its tree and the traffic are arbitrary
+   deadline_view c  := [soft target; ponder channel; ponderhit instant; abort delay; aborted by the timer] *)
+
+Theorem C14_armed_deadline : forall c,
+  timed_mode (ac_tc c) (ac_color c) = true -> 0 <= case_hard c -> clock_started c ->
+  clock_start c + case_hard c <= ac_stop c ->
+  abort_delay c = case_hard c /\ by_timer c = true.
+Proof. exact armed_deadline. Qed.
+Print Assumptions C14_armed_deadline.
+
+Theorem C14_armed_within_clock : forall c,
+  mtime (ac_tc c) = 0 -> clock_ok (ac_tc c) (ac_color c) -> clock_started c ->
+  clock_start c + remaining (ac_tc c) (ac_color c) <= ac_stop c ->
+  0 < abort_delay c <= remaining (ac_tc c) (ac_color c)
+  /\ (remaining (ac_tc c) (ac_color c) > TimeSafetyMargin ->
+      abort_delay c <= remaining (ac_tc c) (ac_color c) - TimeSafetyMargin)
+  /\ by_timer c = true.
+Proof. exact armed_within_clock. Qed.
+Print Assumptions C14_armed_within_clock.
+
+Theorem C14_armed_movetime : forall c,
+  0 < mtime (ac_tc c) -> clock_started c -> clock_start c + mtime (ac_tc c) <= ac_stop c ->
+  abort_delay c = mtime (ac_tc c) /\ by_timer c = true /\ nth 0 (observe c) 0 = mtime (ac_tc c).
+Proof. exact armed_movetime. Qed.
+Print Assumptions C14_armed_movetime.
+
+Theorem C14_arming_own_clock_only : forall c c',
+  same_mover_view c c' -> deadline_view c = deadline_view c'.
+Proof. exact arming_own_clock_only. Qed.
+Print Assumptions C14_arming_own_clock_only.
+
 (* non-vacuity: a concrete clock state meets the hypotheses *)
 Example C14_nonvacuous :
   let t := {| wtime := 60000; btime := 1; winc := 1000; binc := 0; mtime := 0 |} in
   mtime t = 0 /\ clock_ok t White /\ hard_limit t White = 10000.
 Proof. cbv. repeat split; discriminate. Qed.
+
+(* a ponder search of Black, 1 s against 10 min, ponderhit after 250 ms, three plies below the root,
+   isready every 100 ms, stop after a minute: aborted 132 ms after the ponderhit; the same with the
+   opponent's clock, the traffic and the depth changed *)
+Example C14_arm_nonvacuous :
+  let mk (opp oinc plies k ivl : Z) :=
+    {| ac_color := Black; ac_tc := {| wtime := opp; btime := 1000; winc := oinc; binc := 0; mtime := 0 |};
+       ac_popt := true; ac_ptok := true; ac_debug := false; ac_base0 := false;
+       ac_plies := plies; ac_k := k; ac_ivl := ivl; ac_phit := 250; ac_stop := 60000 |} in
+  let c := mk 600000 0 3 30 100 in
+  let c' := mk 7 5000 0 0 1 in
+  mtime (ac_tc c) = 0 /\ clock_ok (ac_tc c) (ac_color c) /\ clock_started c
+  /\ clock_start c + remaining (ac_tc c) (ac_color c) <= ac_stop c
+  /\ same_mover_view c c' /\ abort_delay c = 132 /\ deadline_view c' = (33 :: 1 :: 250 :: 132 :: 1 :: nil).
+Proof. cbv. repeat split; try discriminate; try reflexivity. Qed.
+
+Example C14_arm_movetime_nonvacuous :
+  let c := {| ac_color := White; ac_tc := {| wtime := 0; btime := 0; winc := 0; binc := 0; mtime := 500 |};
+              ac_popt := false; ac_ptok := false; ac_debug := true; ac_base0 := false;
+              ac_plies := 2; ac_k := 9; ac_ivl := 70; ac_phit := 0; ac_stop := 501 |} in
+  0 < mtime (ac_tc c) /\ clock_started c /\ clock_start c + mtime (ac_tc c) <= ac_stop c /\ abort_delay c = 500.
+Proof. cbv. repeat split; try discriminate; try reflexivity. Qed.
